@@ -11,21 +11,35 @@ EXHAUSTIVE = False     # exhaustive over the stated finite domain only in the th
 ASSUMPTIONS = [
     'theorems are about coq/Model/Service.v + coq/Model/CacheModel.v (lib_* mirrors services.py: provider order, '
     '_provider_execute, __init__/blockcount, getbalance, getutxos, gettransaction, getrawtransaction, isspent, '
-    'estimatefee, sendrawtransaction/getrawblock/mempool/getinfo, getcacheaddressinfo)',
+    'estimatefee, sendrawtransaction/getrawblock/mempool/getinfo, getcacheaddressinfo; the address index: '
+    'gettransactions(address, after_txid, limit), getutxos with a cache, gettransaction over cache_transactions + '
+    'cache_transactions_node: Cache.gettransactions / getutxos / store_transaction(t, index) / store_utxo / '
+    'store_address(txs_complete) with ORDER BY (block_height, index), after_txid, limit, last_block, n_txs / n_utxos / '
+    'balance bookkeeping, results_cache_n and complete)',
     'tie to /repo: translator/gen_service.py (constants and structural facts of services.py, regenerated every run; '
     'Proofs/ServiceGlue.v) and the differential correspondence of lib_step against the real Service/Cache with fake '
     'provider clients attached from outside (own providers.json in the run data directory, sqlite cache file)',
     'partial: real HTTP/timeouts are a Raise outcome; sqlite/SQLAlchemy and the wall clock are runtime (clock patched '
     'in the adapter; expiry is modelled with an explicit clock); provider names are distinct (keys of providers.json)',
-    'modelled but not verified: gettransactions, getblock, getinputvalues, Cache.getutxos/gettransactions (address '
-    'index over transaction nodes), per-output spent flags, multi-address getbalance, cache_blocks; confirmations of a '
-    'cached transaction are recomputed by the library and are not part of the compared content',
+    'address-index transactions have one input and one observed output (optionally a foreign output in front); rows '
+    'with equal (block_height, index) are read in insertion order (SQLite scan + stable sort), NULL index first; '
+    'operators and ORDER BY columns of the cache read paths are re-read from services.py on every run '
+    '(source_facts_cache_reads)',
+    'getblock(height, parse_transactions, page, limit) with Cache.getblock / getblocktransactions / store_block: a block '
+    'holds the chain transactions of its height, its header fields travel unchanged (compared by the adapter, not '
+    'modelled); block ids are heights, not hashes',
+    'not modelled: getinputvalues, multi-address getbalance, getblock by hash; confirmations of a cached transaction are '
+    'recomputed by the library and are not part of the compared content',
 ]
 RULE = ('all outcome assignments {ok, exception, AttributeError, False, malformed, skip}^k x min_providers{1,2} x '
         'max_providers{1,2} x max_errors{1,2,4} for every modelled query method (quick: k<=2 all 12 settings and all '
         'priority orders, k=3 every other setting, one seeded priority order; thorough: k<=4 all settings, all orders up to '
         'k=3), each followed by a cache read-back step; cache cold/warm/partial/expired/disabled histories; '
-        'constructor stream; a case is non-trivial when its first query step returns a value; distinct by request')
+        'constructor stream; address index: random chain histories (2-7 transactions of two addresses, several per '
+        'block, spends/change, unconfirmed tail, refused transactions) x warm cache from one answer then every after_txid '
+        'position and limits below/at/above the count under every provider failure pattern; paged fills; growing chain '
+        'with providers of different views; getutxos with a partly filled cache; single transactions filed first; cache '
+        'off / min_providers 2; a case is non-trivial when its first query step returns a value; distinct by request')
 
 H0 = 800000
 KINDS = ['ok', 'exc', 'attr', 'false', 'mal', 'skip']
@@ -239,6 +253,256 @@ def gen_cases(rng, tier):
             provs = [prov_token(i, prios[i], rng.randrange(1, 15), kinds[i], method, arg, n + i, (n + i) % 3) for i in range(k)]
             steps.append(step(method, arg, SETTINGS[rng.randrange(len(SETTINGS))], rng.choice([0, 0, 5, 61, 700]), provs))
         cs.append(Case('history', 'bitcoin file ' + ' '.join(steps)))
+    cs += gen_xcases(rng, big)
+    return cs
+
+
+# ---------------------------------------------------------------- the address index (cache read paths)
+XS1 = (1, 1, 4)
+XFAILS = ['e1', 'a', 'f', 'n']        # how a provider fails the address query
+XINFO = ['3:5:1:n:oi%d:-' % H0]
+
+
+def gen_world(rng, n=None, style=None):
+    """chain history of the two observed addresses, oldest first: several transactions per block, spends, change,
+    unconfirmed tail.  -> (spec string, list of dict)"""
+    n = n if n is not None else rng.randrange(2, 8)
+    style = style or rng.choice(['blocks', 'blocks', 'mixed', 'mixed', 'spread'])
+    h = 700000 + rng.randrange(0, 5) * 10
+    txs = []
+    n_unconf = rng.choice([0, 0, 0, 1, 1, 2]) if n > 2 else 0
+    for k in range(n):
+        if k:
+            h += {'blocks': rng.choice([0, 0, 0, 1, 10]), 'mixed': rng.choice([0, 0, 1, 3]), 'spread': rng.choice([1, 2, 10])}[style]
+        unspent = [j for j, t in enumerate(txs) if t['dst'] in ('0', '1') and not any(u['src'] == str(j) for u in txs)
+                   and (t['height'] or k >= n - n_unconf)]
+        r = rng.random()
+        if unspent and r < 0.35:
+            j = rng.choice(unspent)
+            src = str(j)
+            dst = rng.choice(['B', 'B', txs[j]['dst'], '0', '1'])
+            val = max(600, txs[j]['value'] - 500 - rng.randrange(0, 3) * 1000)
+        else:
+            src = 'F'
+            dst = '0' if rng.random() < 0.8 else '1'
+            val = 10000 * (k + 1) + rng.randrange(0, 9)
+        t = dict(height=0 if k >= n - n_unconf else h, src=src, dst=dst, oidx=1 if rng.random() < 0.25 else 0, value=val,
+                 flag=rng.choice('NNNNAAAAFFT'), storable='0' if rng.random() < 0.04 else '1')
+        txs.append(t)
+    return world_spec(txs), txs
+
+
+def world_spec(txs):
+    return 'W:' + ','.join('%d.%s.%s.%d.%d.%s.%s' % (t['height'], t['src'], t['dst'], t['oidx'], t['value'], t['flag'], t['storable'])
+                           for t in txs)
+
+
+def xprov(pid, prio, tb, q, bc=None, static='n'):
+    return '%d:%d:%d:%s:%s:%s' % (pid, prio, tb, static, bc or ('oi%d' % H0), q)
+
+
+def xstep(method, arg, provs, setting=XS1, dt=0):
+    return '%s/%s/%d/%d/%d/%d/%s' % (method, arg, setting[0], setting[1], setting[2], dt, '+'.join(provs) or '-')
+
+
+def xcase(kind, spec, steps, net='bitcoin', mode='xfile'):
+    return Case('x:' + kind, '%s %s %s %s' % (net, mode, spec, ' '.join(steps)))
+
+
+def fail_provs(rng, k=None, bc_ok=True):
+    """k providers that all fail the address query (the answer has to come from the cache or be an error)"""
+    k = k or rng.randrange(1, 4)
+    prios = rng.sample([10, 20, 30], k)
+    return [xprov(i, prios[i], rng.randrange(1, 15), rng.choice(XFAILS), bc=None if bc_ok else rng.choice(['e7', 'f', 'a']))
+            for i in range(k)]
+
+
+def mine_of(txs, a, m=None):
+    m = len(txs) if m is None else m
+    return [k for k in range(m) if txs[k]['dst'] == a or (txs[k]['src'] != 'F' and txs[int(txs[k]['src'])]['dst'] == a)]
+
+
+def gen_xcases(rng, big):
+    cs = []
+    reps = 6 if big else 1
+    # X1. warm cache from ONE complete answer, then every after_txid position and limits around the count, with
+    #     providers that fail in every way: the answer must be the stored slice
+    for _ in range(60 * reps):
+        spec, txs = gen_world(rng)
+        n = len(txs)
+        a = '0'
+        mine = mine_of(txs, a)
+        steps = [xstep('gettransactions', '%s.-.20' % a, [xprov(0, 10, 1, 'v%d' % n)])]
+        afters = ['-'] + [str(k) for k in range(n)] + ['x']
+        cnt = len([k for k in mine if txs[k]['height']])
+        limits = sorted(set([1, 2, max(1, cnt - 1), max(1, cnt), cnt + 1, 20]))
+        reads = [(af, 20) for af in afters] + [('-', l) for l in limits] + \
+                [(rng.choice(afters), rng.choice(limits)) for _ in range(4)]
+        rng.shuffle(reads)
+        for af, l in reads[:10 if not big else 16]:
+            steps.append(xstep('gettransactions', '%s.%s.%d' % (a, af, l), fail_provs(rng, bc_ok=rng.random() < 0.7),
+                               setting=rng.choice([(1, 1, 4), (1, 1, 1), (1, 2, 2)])))
+        steps.append(xstep('cacheinfo', a, XINFO))
+        cs.append(xcase('warm_after_limit', spec, steps))
+    # X2. the cache is filled in pages (limit below the count, blocks split between answers), then read back
+    for _ in range(50 * reps):
+        spec, txs = gen_world(rng, n=rng.randrange(3, 8))
+        n = len(txs)
+        a = '0'
+        page = rng.choice([1, 2, 2, 3])
+        steps = []
+        for _ in range(rng.randrange(1, 4)):
+            steps.append(xstep('gettransactions', '%s.-.%d' % (a, page), [xprov(0, 10, 1, 'v%d' % n)]))
+        if rng.random() < 0.6:
+            steps.append(xstep('gettransactions', '%s.-.20' % a, [xprov(0, 10, 1, 'v%d' % n)]))
+        for _ in range(6):
+            af = rng.choice(['-'] + [str(k) for k in range(n)])
+            steps.append(xstep('gettransactions', '%s.%s.%d' % (a, af, rng.choice([1, 2, 3, 20])), fail_provs(rng)))
+        steps.append(xstep('cacheinfo', a, XINFO))
+        cs.append(xcase('paged_fill', spec, steps))
+    # X3. the chain grows between the calls (new block count, providers with different views), partial failures
+    for _ in range(60 * reps):
+        spec, txs = gen_world(rng, n=rng.randrange(3, 8))
+        n = len(txs)
+        a = rng.choice(['0', '0', '0', '1'])
+        m1 = rng.randrange(1, n + 1)
+        steps = [xstep('gettransactions', '%s.-.%d' % (a, rng.choice([20, 20, 2, 3])), [xprov(0, 10, 1, 'v%d' % m1)])]
+        bc = H0
+        for _ in range(rng.randrange(2, 6)):
+            dt = rng.choice([0, 0, 5, 61, 100])
+            if dt >= 61:
+                bc += rng.choice([0, 1, 3])
+            k = rng.randrange(1, 4)
+            prios = rng.sample([10, 20, 30], k)
+            provs = []
+            for i in range(k):
+                q = rng.choice(['v%d' % rng.randrange(m1, n + 1), 'v%d' % n, 'e%d' % (i + 1), 'f', 'a', 'n'])
+                provs.append(xprov(i, prios[i], rng.randrange(1, 15), q, bc='oi%d' % bc))
+            meth = rng.choice(['gettransactions', 'gettransactions', 'gettransactions', 'getutxosx', 'gettransactionx', 'cacheinfo'])
+            if meth == 'gettransactionx':
+                arg = rng.choice([str(x) for x in range(n)] + ['x'])
+            elif meth == 'cacheinfo':
+                arg = a
+            else:
+                arg = '%s.%s.%d' % (a, rng.choice(['-', '-', '-'] + [str(x) for x in range(n)]), rng.choice([1, 2, 3, 5, 20, 20]))
+            steps.append(xstep(meth, arg, provs, setting=rng.choice([(1, 1, 4), (1, 1, 4), (1, 1, 1), (1, 2, 2), (2, 2, 4)]), dt=dt))
+        steps.append(xstep('cacheinfo', a, XINFO))
+        cs.append(xcase('growing_chain', spec, steps))
+    # X3b. the cache holds a prefix, a provider knows more: limits between the cached count and the total
+    for _ in range(40 * reps):
+        spec, txs = gen_world(rng, n=rng.randrange(4, 8), style='blocks')
+        n = len(txs)
+        a = '0'
+        m1 = rng.randrange(1, n)
+        c1 = len([k for k in mine_of(txs, a, m1) if txs[k]['height']])
+        tot = len(mine_of(txs, a))
+        steps = [xstep('gettransactions', '%s.-.20' % a, [xprov(0, 10, 1, 'v%d' % m1)])]
+        for lim in sorted(set([c1 + 1, c1 + 2, max(1, tot - 1), max(1, tot), max(1, c1)])):
+            af = rng.choice(['-', '-'] + [str(k) for k in mine_of(txs, a, m1)])
+            steps.append(xstep('gettransactions', '%s.%s.%d' % (a, af, lim),
+                               [xprov(0, 20, 3, rng.choice(['e1', 'f', 'a', 'n']), bc='oi%d' % (H0 + 2)),
+                                xprov(1, 10, 5, 'v%d' % n, bc='oi%d' % (H0 + 2))],
+                               setting=rng.choice([(1, 1, 4), (1, 2, 4)]), dt=rng.choice([61, 100])))
+            steps.append(xstep('gettransactions', '%s.-.%d' % (a, lim), fail_provs(rng)))
+        steps.append(xstep('cacheinfo', a, XINFO))
+        cs.append(xcase('prefix_then_more', spec, steps))
+    # X4. unspent outputs: the cache knows some, the providers fail / answer partly / the limit is reached
+    for _ in range(60 * reps):
+        spec, txs = gen_world(rng, n=rng.randrange(2, 8))
+        for t in txs:                      # more known spent flags, so that Cache.getutxos has something to serve
+            if rng.random() < 0.6:
+                t['flag'] = rng.choice('AAAF')
+        spec = world_spec(txs)
+        n = len(txs)
+        a = '0'
+        steps = [xstep('gettransactions', '%s.-.20' % a, [xprov(0, 10, 1, 'v%d' % rng.choice([n, n, max(1, n - 1)]))])]
+        if rng.random() < 0.4:
+            steps.append(xstep('getutxosx', '%s.-.20' % a, [xprov(0, 10, 1, 'v%d' % n)]))
+        for _ in range(5):
+            af = rng.choice(['-', '-'] + [str(k) for k in range(n)] + ['x'])
+            lim = rng.choice([1, 2, 3, 20, 20])
+            r = rng.random()
+            if r < 0.5:
+                provs = fail_provs(rng)
+                setting = rng.choice([(1, 1, 4), (1, 1, 1), (1, 1, 2), (1, 2, 2)])
+            else:
+                provs = [xprov(0, 20, 3, rng.choice(['e1', 'f', 'a', 'v%d' % n])), xprov(1, 10, 5, 'v%d' % rng.randrange(1, n + 1))]
+                setting = rng.choice([(1, 1, 4), (1, 1, 1), (1, 2, 2), (2, 2, 4)])
+            steps.append(xstep('getutxosx', '%s.%s.%d' % (a, af, lim), provs, setting=setting))
+        steps.append(xstep('cacheinfo', a, XINFO))
+        cs.append(xcase('utxos', spec, steps))
+    # X5. single transactions filed first (no index), then the address is read; two addresses on one cache
+    for _ in range(60 * reps):
+        spec, txs = gen_world(rng, n=rng.randrange(3, 8), style=rng.choice(['blocks', 'blocks', 'mixed']))
+        n = len(txs)
+        steps = []
+        for _ in range(rng.randrange(1, 3)):
+            steps.append(xstep('gettransactionx', str(rng.randrange(n)), [xprov(0, 10, 1, 'v%d' % n)]))
+        for a in rng.sample(['0', '1'], 2):
+            steps.append(xstep('gettransactions', '%s.-.%d' % (a, rng.choice([20, 20, 2])), [xprov(0, 10, 1, 'v%d' % n)]))
+        for _ in range(5):
+            a = rng.choice(['0', '1'])
+            af = rng.choice(['-'] + [str(k) for k in range(n)])
+            steps.append(xstep(rng.choice(['gettransactions', 'gettransactions', 'getutxosx']),
+                               '%s.%s.%d' % (a, af, rng.choice([1, 2, 20])), fail_provs(rng)))
+        steps.append(xstep('cacheinfo', '0', XINFO))
+        steps.append(xstep('cacheinfo', '1', XINFO))
+        cs.append(xcase('single_then_address', spec, steps))
+    # X6. cache disabled / providers compared (min_providers 2): nothing may come from a cache
+    for _ in range(20 * reps):
+        spec, txs = gen_world(rng)
+        n = len(txs)
+        mode = rng.choice(['xoff', 'xfile'])
+        setting = (1, 1, 4) if mode == 'xoff' else (2, 2, 4)
+        steps = []
+        for _ in range(4):
+            provs = [xprov(0, 20, 3, rng.choice(['e1', 'f', 'v%d' % n, 'v%d' % n])), xprov(1, 10, 5, 'v%d' % rng.randrange(1, n + 1))]
+            steps.append(xstep(rng.choice(['gettransactions', 'getutxosx', 'gettransactionx']),
+                               '%s.%s.%d' % ('0', rng.choice(['-'] + [str(k) for k in range(n)]), rng.choice([1, 2, 20])),
+                               provs, setting=setting))
+            if steps[-1].startswith('gettransactionx'):
+                steps[-1] = xstep('gettransactionx', str(rng.randrange(n)), provs, setting=setting)
+        cs.append(xcase('no_cache', spec, steps, mode=mode))
+    # X7. blocks: pages filed in / out of order with different page sizes, transaction ids only, blocks a provider does
+    #     not know yet, transactions of the block filed before by address queries; then read back with failing providers
+    for _ in range(80 * reps):
+        spec, txs = gen_world(rng, n=rng.randrange(3, 8), style=rng.choice(['blocks', 'blocks', 'mixed']))
+        n = len(txs)
+        heights = sorted(set(t['height'] for t in txs if t['height']))
+        if not heights:
+            continue
+        # prefer a block with several transactions
+        h = max(heights, key=lambda x: (len([t for t in txs if t['height'] == x]), rng.random()))
+        if rng.random() < 0.25:
+            h = rng.choice(heights)
+        cnt = len([t for t in txs if t['height'] == h])
+        steps = []
+        if rng.random() < 0.3:
+            steps.append(xstep(rng.choice(['gettransactions', 'gettransactionx']),
+                               rng.choice(['0.-.20', '0.-.2']) if rng.random() < 0.6 else None, [xprov(0, 10, 1, 'v%d' % n)]))
+            if steps[-1].startswith('gettransactionx') or '/None/' in steps[-1]:
+                ks = [k for k in range(n) if txs[k]['height'] == h]
+                steps[-1] = xstep('gettransactionx', str(rng.choice(ks)), [xprov(0, 10, 1, 'v%d' % n)])
+        lim0 = rng.choice([1, 2, 2, 3, 25])
+        pages = list(range(1, (cnt + lim0 - 1) // lim0 + 1))
+        if rng.random() < 0.4:
+            rng.shuffle(pages)
+        for pg in pages[:rng.randrange(1, len(pages) + 1)]:
+            steps.append(xstep('getblock', '%d.%d.%d.%d' % (h, 0 if rng.random() < 0.15 else 1, pg, lim0),
+                               [xprov(0, 10, 1, 'v%d' % rng.choice([n, n, n, max(1, n - 2)]))]))
+        for _ in range(6):
+            lim = rng.choice([1, 2, 3, lim0, lim0, 25])
+            pg = rng.randrange(1, (cnt + lim - 1) // lim + 2)
+            r = rng.random()
+            if r < 0.6:
+                provs = fail_provs(rng)
+            elif r < 0.8:
+                provs = [xprov(0, 20, 3, rng.choice(['e1', 'f', 'a'])), xprov(1, 10, 5, 'v%d' % n)]
+            else:
+                provs = [xprov(0, 10, 5, 'v%d' % rng.randrange(1, n + 1))]
+            steps.append(xstep('getblock', '%d.%d.%d.%d' % (rng.choice([h, h, h] + heights), 0 if rng.random() < 0.2 else 1, pg, lim),
+                               provs, setting=rng.choice([(1, 1, 4), (1, 1, 1), (1, 2, 2), (2, 2, 4)])))
+        cs.append(xcase('blocks', spec, steps, mode='xfile' if rng.random() < 0.9 else 'xoff'))
     return cs
 
 
@@ -246,7 +510,7 @@ def gen_cases(rng, tier):
 def strip_extras(out):
     steps = []
     for s in out.split(' ; '):
-        steps.append(' '.join(t for t in s.split(' ') if not (t.startswith('C=') or t.startswith('X='))))
+        steps.append(' '.join(t for t in s.split(' ') if not (t.startswith('C=') or t.startswith('X=') or t == '')))
     return ' ; '.join(steps)
 
 
@@ -257,6 +521,8 @@ def same(c, impl_out, model_out):
 def is_trivial(c, out):
     if out.startswith('CRASH') or out == 'BADREQ':
         return True
+    if c.req.split()[1] in ('xfile', 'xoff'):
+        return not any(o.split(' ')[0][:1] in 'XUx' for o in out.split(' ; '))
     for s, o in zip(c.req.split()[2:], out.split(' ; ')):
         if s.startswith('seedaddr') or s.startswith('cacheinfo'):
             continue
@@ -325,9 +591,318 @@ def shown(method, tok, arg):
     return tok
 
 
+# ---------------------------------------------------------------- the address index: oracle from the statement
+# The chain history W is part of the case.  A provider that knows the first m transactions answers
+# gettransactions(address, after_txid, limit) with the transactions of the address after after_txid, oldest first, at
+# most limit of them; getutxos with the unspent outputs among them.  The property: what the service returns is such an
+# answer - of a provider that responds in this call, or a stored copy of an answer given earlier (a stored copy holds
+# the confirmed transactions only) - never a reordered, thinned out or invented list, and an error only when nobody
+# usable answers.
+def parse_world(spec):
+    txs = []
+    body = spec[2:]
+    for sp in (body.split(',') if body else []):
+        h, src, dst, oidx, val, flag, stor = sp.split('.')
+        txs.append(dict(height=int(h), src=src, dst=dst, oidx=int(oidx), value=int(val), flag=flag, storable=stor == '1'))
+    return txs
+
+
+def ref_touch(txs, k, a):
+    t = txs[k]
+    return t['dst'] == a or (t['src'] != 'F' and txs[int(t['src'])]['dst'] == a)
+
+
+def ref_txs(txs, m, a, after, limit, confirmed_only=False):
+    """the reference answer of a provider with view m; None when after_txid is not a transaction of the address"""
+    mine = [k for k in range(min(m, len(txs))) if ref_touch(txs, k, a) and (txs[k]['height'] or not confirmed_only)]
+    if after != '-':
+        if after == 'x' or int(after) not in mine:
+            return None
+        mine = mine[mine.index(int(after)) + 1:]
+    return mine[:limit]
+
+
+def ref_utxos(txs, m, a, after, limit):
+    m = min(m, len(txs))
+    mine = [k for k in range(m) if ref_touch(txs, k, a)]
+    if after != '-':
+        if after == 'x' or int(after) not in mine:
+            return None
+        mine = mine[mine.index(int(after)) + 1:]
+    spent = set(int(txs[k]['src']) for k in range(m) if txs[k]['src'] != 'F')
+    return [k for k in mine if txs[k]['dst'] == a and k not in spent][:limit]
+
+
+def x_items(ret):
+    """'X0h7s..' / 'U0n0v5h7' -> list of (k, rest) ; None when an element is not a world transaction or is altered"""
+    body = ret[1:]
+    if not body:
+        return []
+    out = []
+    for it in body.split('.'):
+        j = 0
+        while j < len(it) and it[j].isdigit():
+            j += 1
+        if j == 0:
+            return None
+        out.append((int(it[:j]), it[j:]))
+    return out
+
+
+def order_hazard(steps, upto, a, txs):
+    """-> the recorded defect class the history before step [upto] can trigger, or None.
+    cache_skips_refused_transaction: the chain holds a transaction Cache.store_transaction refuses (no input value); the
+      transactions after it are filed without index and the refused one is never fetched again.
+    cache_index_not_chain_order: transactions of the address are filed by more than one call (`index` restarts at 0 in
+      every provider answer) or singly by gettransaction (no index), so (block_height, index) is not the chain order."""
+    if any(not t['storable'] and t['height'] and ref_touch(txs, k, a) for k, t in enumerate(txs)):
+        return 'cache_skips_refused_transaction'
+    mine = [k for k in range(len(txs)) if ref_touch(txs, k, a) and txs[k]['height']]
+    events = 0
+    for st in steps[:upto]:
+        if not any(p['q'][0] == 'v' for p in st['provs']):
+            continue
+        if st['method'] == 'gettransactionx':
+            if st['arg'] != 'x' and int(st['arg']) in mine:
+                return 'cache_index_not_chain_order'
+        elif st['method'] == 'getblock':
+            bh, parse = st['arg'].split('.')[:2]
+            if parse == '1' and any(txs[k]['height'] == int(bh) for k in mine):
+                return 'cache_index_not_chain_order'
+        elif st['method'] == 'gettransactions':
+            a2 = st['arg'].split('.')[0]
+            if a2 == a or any(ref_touch(txs, k, a2) for k in mine):
+                events += 1
+    if events > 1:
+        return 'cache_index_not_chain_order'
+    return None
+
+
+def nobody_block(order, st, ks):
+    """no provider can have answered: the ones in front of the first that knows the block raise max_errors times, or none
+    knows it"""
+    n = 0
+    for p in order:
+        if p['q'][0] == 'v' and p['static'] == 'n' and ks and max(ks) < int(p['q'][1:]):
+            return n >= st['maxe']
+        if p['static'] == 'x' or p['q'][0] == 'e' or (p['q'][0] == 'v' and p['static'] == 'n'):
+            n += 1
+    return True
+
+
+def block_hazard(steps, upto, h, txs, page, limit):
+    """-> the recorded defect class the history can trigger for pages of block h, or None.
+    cache_index_not_chain_order: a transaction of the block was filed by an address query / singly (its `index` is not
+      its position in the block).
+    block_pages_unordered: pages of the block were filed with another page size or not in ascending order
+      (Cache.getblocktransactions has no ORDER BY: rows come back in filing order)."""
+    geom = []
+    for st in steps[:upto]:
+        if st['method'] == 'gettransactionx' and any(p['q'][0] == 'v' for p in st['provs']):
+            if st['arg'] != 'x' and txs[int(st['arg'])]['height'] == h:
+                return 'cache_index_not_chain_order'
+        if st['method'] == 'gettransactions' and any(p['q'][0] == 'v' for p in st['provs']):
+            a2 = st['arg'].split('.')[0]
+            if any(t['height'] == h and ref_touch(txs, k, a2) for k, t in enumerate(txs)):
+                return 'cache_index_not_chain_order'
+        if st['method'] == 'getblock':
+            bh, parse, pg, lim = [int(x) for x in st['arg'].split('.')]
+            if bh == h and parse and any(p['q'][0] == 'v' for p in st['provs']):
+                geom.append((pg, lim))
+    if any(g[1] != limit for g in geom) or [g[0] for g in geom] != sorted(g[0] for g in geom):
+        return 'block_pages_unordered'
+    return None
+
+
+def check_xsteps(c, out):
+    toks = c.req.split()
+    txs = parse_world(toks[2])
+    steps = [parse_step(s) for s in toks[3:]]
+    obs = out.split(' ; ')
+    bad = []
+    if len(obs) != len(steps):
+        return [('malformed_output', 'got %d step answers for %d steps' % (len(obs), len(steps)))]
+    cache_on = toks[1] == 'xfile'
+    cached_views = {}        # address -> set of views m some stored answer came from
+    for si, (st, o) in enumerate(zip(steps, obs)):
+        m_ = st['method']
+        if o.startswith('CRASH') or o == 'BADREQ':
+            bad.append(('adapter', o[:100]))
+            continue
+        f = o.split(' ')
+        ret = f[0]
+        if ret in ('INITERR', 'INITOTHERERR'):
+            if any(p['bc'][0] == 'o' and p['static'] == 'n' for p in st['provs']) and \
+                    not any(p['bc'][0] in 'eaf' or p['static'] in 'mx' for p in st['provs']):
+                bad.append(('constructor_fails_despite_answer', 'Service() raised although every provider answers blockcount'))
+            continue
+        if m_ == 'cacheinfo':
+            continue
+        order = sorted(st['provs'], key=lambda p: (-p['prio'], -p['tb']))
+        views = [int(p['q'][1:]) for p in order if p['q'][0] == 'v' and p['static'] == 'n']
+        nfail = 0
+        for p in order:
+            if p['q'][0] == 'v' and p['static'] == 'n':
+                break
+            if p['static'] in 'mx' or p['q'][0] in 'eaf':
+                nfail += 1
+        mal = any(p['q'][0] == 'o' for p in order)
+        error_justified = (not views) or nfail >= st['maxe'] or mal
+        # exceptions in front of the first provider that answers: with max_errors of them the limit is reached first
+        nexc = 0
+        for p in order:
+            if p['q'][0] == 'v' and p['static'] == 'n':
+                break
+            if p['static'] == 'x' or (p['static'] == 'n' and p['q'][0] == 'e'):
+                nexc += 1
+        nobody = (not views) or nexc >= st['maxe']
+        caching = cache_on and st['minp'] <= 1
+        if m_ == 'gettransactionx':
+            k = st['arg']
+            known = [m for m in views if k != 'x' and int(k) < m]
+            if ret in ('SERVICEERR', 'OTHERERR', 'F'):
+                if known and not error_justified and views[0] == known[0] and nfail < st['maxe']:
+                    bad.append(('error_despite_answer', 'gettransaction raised/returned False although provider view %d holds it' % known[0]))
+            else:
+                it = x_items(ret)
+                if ret[0] != 'x' or it is None or len(it) != 1 or k == 'x' or it[0][0] != int(k):
+                    bad.append(('unclassified', 'gettransaction(%s) returned %s' % (k, ret)))
+                elif caching and txs[int(k)]['height']:
+                    for a in ('0', '1'):
+                        if ref_touch(txs, int(k), a):
+                            cached_views.setdefault(a, set())
+            continue
+        if m_ == 'getblock':
+            h, parse, page, limit = [int(x) for x in st['arg'].split('.')]
+            ks = [k for k in range(len(txs)) if txs[k]['height'] == h and h]
+            bviews = [m for m in views if ks and max(ks) < m]          # providers that know the whole block
+            if ret in ('SERVICEERR', 'OTHERERR', 'F'):
+                first_ok = bool(bviews) and views and views[0] == bviews[0]
+                if ret == 'F' and nobody_block(order, st, ks):
+                    if any(p['static'] == 'x' or p['q'][0] == 'e' for p in order):
+                        bad.append(('limit_returns_false', 'getblock returned False instead of raising'))
+                elif first_ok and nfail < st['maxe'] and not mal and nexc < st['maxe'] and order and \
+                        all(p['q'][0] == 'v' and p['static'] == 'n' for p in order[:1]):
+                    bad.append(('error_despite_answer', 'getblock raised/returned %s although the first provider knows the block' % ret))
+                continue
+            if ret[0] != 'B' or ':' not in ret:
+                bad.append(('unclassified', 'getblock returned %s' % ret))
+                continue
+            head, body = ret[1:].split(':', 1)
+            bh, bc = head.split('c')
+            items = body.split('.') if body else []
+            exp = ks[max((page - 1) * limit, 0):][:max(limit, 0)]
+            got = []
+            okform = True
+            for it in items:
+                if parse:
+                    xi = x_items('X' + it)
+                    if not xi or xi[0][0] >= len(txs) or not xi[0][1].startswith('h%ds' % txs[xi[0][0]]['height']):
+                        okform = False
+                        break
+                    got.append(xi[0][0])
+                else:
+                    if not it.startswith('i') or not it[1:].isdigit():
+                        okform = False
+                        break
+                    got.append(int(it[1:]))
+            if not okform:
+                bad.append(('transaction_altered', 'getblock returned altered / unknown transactions: %s' % ret))
+            elif int(bh) != h or int(bc) != len(ks):
+                bad.append(('block_altered', 'getblock(%d) returned block %s with tx_count %s; the chain has %d transactions there'
+                            % (h, bh, bc, len(ks))))
+            elif got != exp:
+                tag = block_hazard(steps, si, h, txs, page, limit) if caching or cache_on else None
+                bad.append((tag or 'cached_answer_differs', 'getblock(%d, page=%d, limit=%d) returned transactions %s; the block '
+                                                            'page is %s' % (h, page, limit, got, exp)))
+            continue
+        a, after, limit = st['arg'].split('.')
+        limit = int(limit)
+        known_views = set(cached_views.get(a, set())) if caching else set()
+        if m_ == 'gettransactions':
+            if ret in ('SERVICEERR', 'OTHERERR'):
+                if not error_justified:
+                    bad.append(('error_despite_answer', 'gettransactions raised %s although a provider answers before the error '
+                                                        'limit (failing in front: %d, max_errors %d)' % (ret, nfail, st['maxe'])))
+                continue
+            it = x_items(ret)
+            if ret[0] != 'X' or it is None:
+                bad.append(('unclassified', 'gettransactions returned %s' % ret))
+                continue
+            ids = [k for k, _ in it]
+            wrong = [k for k, rest in it if k >= len(txs) or not rest.startswith('h%ds' % txs[k]['height'])]
+            if wrong:
+                bad.append(('transaction_altered', 'returned transactions %s differ from the chain (block height / content)' % wrong))
+                continue
+            foreign_after = after != '-' and (after == 'x' or not ref_touch(txs, int(after), a))
+            acceptable = []
+            for m in views:
+                acceptable.append(ref_txs(txs, m, a, after, limit))
+            for m in known_views:
+                acceptable.append(ref_txs(txs, m, a, after, limit, confirmed_only=True))
+                for m2 in views:       # stored confirmed part continued by a provider of this call
+                    acceptable.append(ref_txs(txs, max(m, m2), a, after, limit))
+            acceptable = [x if x is not None else [] for x in acceptable]
+            if foreign_after:
+                # after_txid is not a transaction of this address: any chain-ordered selection of its transactions
+                allmine = [k for k in range(len(txs)) if ref_touch(txs, k, a)]
+                if not (all(k in allmine for k in ids) and ids == sorted(set(ids))):
+                    bad.append(((caching and order_hazard(steps, si, a, txs)) or 'cached_answer_differs',
+                                'gettransactions(after=%s, not of the address) returned %s' % (after, ids)))
+            elif ids in acceptable:
+                pass
+            elif not views and not known_views and ids == []:
+                pass
+            else:
+                tag = (caching and order_hazard(steps, si, a, txs)) or 'cached_answer_differs'
+                bad.append((tag, 'gettransactions(%s, after=%s, limit=%d) returned %s; a provider / stored answer gives one of %s'
+                            % (a, after, limit, ids, sorted(set(map(tuple, acceptable))))))
+            if caching and views and ret[0] == 'X':
+                cached_views.setdefault(a, set()).update(views)
+        elif m_ == 'getutxosx':
+            if ret in ('SERVICEERR', 'OTHERERR'):
+                if not error_justified:
+                    bad.append(('error_despite_answer', 'getutxos raised %s although a provider answers before the error limit' % ret))
+                continue
+            it = x_items(ret)
+            if ret[0] != 'U' or it is None:
+                bad.append(('unclassified', 'getutxos returned %s' % ret))
+                continue
+            if nobody and not mal:
+                bad.append(('partial_answer_instead_of_error', 'getutxos returned %s although no provider answers before the '
+                                                               'error limit (exceptions in front: %d, max_errors %d)'
+                            % (ret, nexc, st['maxe'])))
+                continue
+            ids = [k for k, _ in it]
+            invented = [k for k, rest in it if k >= len(txs) or txs[k]['dst'] != a or
+                        rest != 'n%dv%dh%d' % (txs[k]['oidx'], txs[k]['value'], txs[k]['height'])]
+            if invented:
+                bad.append(('utxo_invented', 'getutxos returned outputs %s that are not outputs of the address in the chain' % invented))
+                continue
+            ok = False
+            for i in range(len(ids) + 1):
+                head, tail = ids[:i], ids[i:]
+                if head != sorted(set(head)):
+                    continue
+                af = str(head[-1]) if head else after
+                for m in views:
+                    r = ref_utxos(txs, m, a, af, limit)
+                    if (r if r is not None else []) == tail:
+                        ok = True
+            if after != '-' and (after == 'x' or not ref_touch(txs, int(after), a)):
+                ok = ok or ids == sorted(set(ids))
+            if not ok:
+                tag = (caching and order_hazard(steps, si, a, txs)) or 'cached_answer_differs'
+                bad.append((tag, 'getutxos(%s, after=%s, limit=%d) returned %s: not stored outputs in chain order followed by a '
+                                 'provider answer' % (a, after, limit, ids)))
+    return bad
+
+
 def check_steps(c, out):
     """-> list of (class, message) for every step whose observation contradicts the property"""
     toks = c.req.split()
+    if toks[1] in ('xfile', 'xoff'):
+        return check_xsteps(c, out)
     net = toks[0]
     steps = [parse_step(s) for s in toks[2:]]
     obs = out.split(' ; ')
@@ -505,7 +1080,8 @@ def _class_pred(cid):
 
 KNOWN_CLASSES = {}
 for _cid in ('limit_returns_false', 'getbalance_fabricates_zero', 'isspent_unspent_at_limit',
-             'estimatefee_default_substituted', 'estimatefee_clamped', 'wrong_txid_relabelled'):
+             'estimatefee_default_substituted', 'estimatefee_clamped', 'wrong_txid_relabelled',
+             'cache_index_not_chain_order', 'cache_skips_refused_transaction', 'block_pages_unordered'):
     KNOWN_CLASSES[_cid] = _class_pred(_cid)
 
 
